@@ -345,6 +345,7 @@ func (g *gateState) finalCheck() {
 	d := g.d
 	removedIdx, removedFld := map[string]bool{}, map[string]bool{}
 	for _, r := range g.records {
+		d.c.Logf("gate record: %s -> %s %s outcome=%s", r.what, r.eff.kind, r.eff.name, r.outcome)
 		if r.outcome != "refused" {
 			if r.eff.kind == "rmindex" {
 				removedIdx[r.eff.name] = true
@@ -537,6 +538,10 @@ func c23Extra(d *db, op simrt.Op) bool {
 		}
 		d.pushPull()
 	case "gatefinal":
+		// the other clients' calls change what is being compared: wait for them to finish
+		for i := 0; d.othersDone < len(d.c.Plan.Clients)-1 && i < 100000 && !d.c.Stopped(); i++ {
+			simrt.Sleep(100 * time.Millisecond)
+		}
 		g.finalCheck()
 	default:
 		return rzExtra(d, op)
